@@ -4,6 +4,8 @@ package rules
 // of the fourth round of seeded changes).
 
 import (
+	"fmt"
+	"go/types"
 	"strings"
 
 	"golang.org/x/tools/go/ssa"
@@ -19,6 +21,18 @@ func init() {
 		pr.Explanation += " " + expl
 	}
 	extend("C05", "(R5.8) neither finalising entry point can report 'done' on a path that has not removed the in-progress marker from the workload (a release that ends before its sub-status exists still unmarks the workload); (R5.9) the resume-workload task reports 'done' only after it saw a BatchRelease that completed the release, or after a write of its own: the webhook pauses the workload at admission, before any BatchRelease exists.", r4C05)
+	extend("C05", "(R5.10) Finalize of the five in-place controllers answers success without writing only when the workload is absent or provably not held (control annotation empty or not paused).", r4C05b)
+	imp := func(id, from string, mapping map[string]string, expl string) {
+		extend(id, expl, func(c *Ctx) {
+			t := NewCtx(c.Prog, from, c.Tier, c.OutDir)
+			Registry[from].Run(t)
+			c.Import(t, mapping, " (= "+from+"'s rule, a necessary condition of this property too)")
+		})
+	}
+	extend("C18", "(R18.6) the loop that strips the controllers' finalizer from generated objects sees terminating objects too: neither it nor the listing it uses filters on the deletion timestamp (a terminating object is exactly the one waiting for its finalizer).", r4C18)
+	imp("C05", "C18", map[string]string{"R18.6": "R5.11"}, "(R5.11 = C18 R18.6) a generated canary Deployment that is already terminating still loses its finalizer at Finalize, so it does not outlive the release.")
+	extend("C03", "(R3.7) PatchStableService answers 'pinned, no retry' without having examined the Service selector only for configurations that have no Service to pin (no reference, traffic-routing-only, no generated canary Service) — never because a read failed; (R3.8) the admission validator and every consumer turn a step's traffic string into a number with the same parsing function, so what was validated is what gets routed.", r4C03)
+	extend("C12", "(R12.8) the ordered filter sorts the pods by ordinal before it classifies them: the truncated prefix of the low-priority list must not depend on list order.", r4C12)
 }
 
 // markerRemovers: functions of the rollout controller package that build a merge patch deleting
@@ -45,6 +59,76 @@ func markerRemovers(p *Program) map[*ssa.Function]bool {
 		}
 	}
 	return out
+}
+
+// apiWrites returns a predicate for instructions that write to the API server: a client
+// Patch / Update / Create / Delete (also through Status()), or a call of a repository function
+// that reaches one.
+func apiWrites(p *Program) func(ssa.Instruction) bool {
+	direct := func(ci ssa.CallInstruction) bool {
+		cc := ci.Common()
+		if !cc.IsInvoke() || !strings.Contains(cc.Value.Type().String(), "client.") {
+			return false
+		}
+		switch cc.Method.Name() {
+		case "Patch", "Update", "Create", "Delete", "DeleteAllOf":
+			return true
+		}
+		return false
+	}
+	writes := map[*ssa.Function]bool{}
+	for changed := true; changed; {
+		changed = false
+		for _, fn := range p.RepoFuncs() {
+			if writes[fn] {
+				continue
+			}
+			for _, ci := range AllCalls(fn) {
+				hit := direct(ci)
+				for _, cal := range p.Callees(ci) {
+					if writes[cal] {
+						hit = true
+					}
+				}
+				if hit {
+					writes[fn] = true
+					changed = true
+					break
+				}
+			}
+		}
+	}
+	return func(in ssa.Instruction) bool {
+		ci, ok := in.(ssa.CallInstruction)
+		if !ok {
+			return false
+		}
+		if direct(ci) {
+			return true
+		}
+		for _, cal := range p.Callees(ci) {
+			if writes[cal] {
+				return true
+			}
+		}
+		return false
+	}
+}
+
+// successReturn: a return whose last (error) result can be nil.
+func successReturn(fn *ssa.Function) func(ssa.Instruction) bool {
+	return func(in ssa.Instruction) bool {
+		ret, ok := in.(*ssa.Return)
+		if !ok || ret.Block() == fn.Recover || len(ret.Results) == 0 {
+			return false
+		}
+		for _, lf := range Leaves(ret.Results[len(ret.Results)-1], ret.Block()) {
+			if k, ok := lf.V.(*ssa.Const); ok && k.IsNil() {
+				return true
+			}
+		}
+		return false
+	}
 }
 
 func r4C05(c *Ctx) {
@@ -124,32 +208,7 @@ func r4C05(c *Ctx) {
 		c.Unresolved("R5.9", "rollout.finalizingBatchRelease")
 		return
 	}
-	_, apiCall := apiReaching(p)
-	isWrite := func(in ssa.Instruction) bool {
-		ci, ok := in.(ssa.CallInstruction)
-		if !ok || !apiCall(ci) {
-			return false
-		}
-		cn := CalleeName(ci.Common())
-		if strings.Contains(cn, "controller-runtime/pkg/client.") {
-			m := ci.Common().Method
-			return m != nil && (m.Name() == "Patch" || m.Name() == "Update" || m.Name() == "Create" || m.Name() == "Delete")
-		}
-		// a repository helper that reaches the API: count it as a write unless it is a pure fetch
-		for _, callee := range p.Callees(ci) {
-			for f := range p.ReachableFrom(callee) {
-				for _, x := range AllCalls(f) {
-					if x.Common().IsInvoke() && strings.Contains(x.Common().Value.Type().String(), "client.") {
-						switch x.Common().Method.Name() {
-						case "Patch", "Update", "Create", "Delete":
-							return true
-						}
-					}
-				}
-			}
-		}
-		return false
-	}
+	isWrite := apiWrites(p)
 	completed := FCmp("==", MField("Phase"), MConst(ConstVal(p.ConstObj("api/v1beta1", "RolloutPhaseCompleted"))))
 	n := 0
 	seenRet := map[*ssa.Return]bool{}
@@ -181,4 +240,269 @@ func r4C05(c *Ctx) {
 	if n == 0 {
 		c.Ob("R5.9", "finalizingBatchRelease#done-returns", fn.Pos(), false, "at least one done-return is analysed", "no return of (false, nil) found")
 	}
+}
+
+// r4C05b: R5.10 — Finalize of the in-place controllers answers success without a write only
+// when the workload is absent or provably not held.
+func r4C05b(c *Ctx) {
+	p := c.Prog
+	c.Rule("R5.10", "Finalize answers success without writing only when the workload is absent or not held (no control annotation / not paused)", 5)
+	ctrlAnno := ""
+	if k := p.ConstObj("github.com/openkruise/rollouts/pkg/util", "BatchReleaseControlAnnotation"); k != nil {
+		ctrlAnno = ConstVal(k)
+	} else {
+		c.Unresolved("R5.10", "util.BatchReleaseControlAnnotation")
+		return
+	}
+	annoLookup := func(t *Term) bool {
+		return t.Op == "lookup" && len(t.Args) == 2 && MField("Annotations")(t.Args[0]) && MConst(ctrlAnno)(t.Args[1])
+	}
+	notHeld := FOr(
+		FNil(MField("object")), FNil(MField("stableObject")),
+		FCmp("==", annoLookup, MConst("")),
+		FFalse(MField("Paused")),
+	)
+	isWrite := apiWrites(p)
+	cp := "pkg/controller/batchrelease/control/"
+	for _, name := range []string{
+		cp + "partitionstyle/cloneset.realController.Finalize", cp + "partitionstyle/daemonset.realController.Finalize",
+		cp + "partitionstyle/statefulset.realController.Finalize", cp + "partitionstyle/deployment.realController.Finalize",
+		cp + "canarystyle/deployment.realStableController.Finalize",
+	} {
+		fn := p.Func(name)
+		if fn == nil {
+			c.Unresolved("R5.10", name)
+			continue
+		}
+		reach, at := CanReach(Entry(fn), successReturn(fn), ReachOpts{CutInstr: isWrite, CutEdge: func(b *ssa.BasicBlock, k int) bool {
+			return EdgeFactMatches(b, k, notHeld)
+		}})
+		detail := ""
+		if reach {
+			detail = "the return at " + p.Pos(at.Pos()) + " answers success although nothing was written and the path does not establish that the workload is absent, carries no control annotation, or is not paused: a workload that is still held stays held while the BatchRelease reports Completed"
+		}
+		c.Ob("R5.10", shortName(name)+"#success-needs-write-or-not-held", fn.Pos(), !reach, "success without a write only for an absent or not-held workload", detail)
+	}
+}
+
+
+// ---------------------------------------------------------------- C18 R18.6
+
+func r4C18(c *Ctx) {
+	p := c.Prog
+	c.Rule("R18.6", "finalizer-stripping loops over generated objects do not skip terminating objects", 1)
+	uf := p.Func("pkg/util.UpdateFinalizer")
+	if uf == nil {
+		c.Unresolved("R18.6", "pkg/util.UpdateFinalizer")
+		return
+	}
+	for _, cs := range p.Callers(uf) {
+		if cs.Kind != "static" || len(cs.Args) < 4 {
+			continue
+		}
+		if op := TermOf(cs.Args[2]); op.Op != "const" || op.Name != "Remove" {
+			continue
+		}
+		// only loops over listed objects: the object argument is an element of a slice
+		obj := TermOf(cs.Args[1])
+		inLoop := false
+		for x := range BackwardSlice(cs.Args[1]) {
+			switch x.(type) {
+			case *ssa.IndexAddr, *ssa.Index, *ssa.Next, *ssa.Range:
+				inLoop = true
+			}
+		}
+		if !inLoop {
+			continue
+		}
+		_ = obj
+		bad := ""
+		for _, f := range samePkgClosure(p, cs.Caller) {
+			for _, b := range f.Blocks {
+				for _, in := range b.Instrs {
+					if fa, ok := in.(*ssa.FieldAddr); ok {
+						if n, _ := FieldOf(fa); n == "DeletionTimestamp" {
+							bad = "reads DeletionTimestamp at " + p.Pos(fa.Pos()) + " (" + shortName(FuncName(f)) + ")"
+						}
+					}
+					if fv, ok := in.(*ssa.Field); ok {
+						if st, ok2 := fv.X.Type().Underlying().(*types.Struct); ok2 && st.Field(fv.Field).Name() == "DeletionTimestamp" {
+							bad = "reads DeletionTimestamp at " + p.Pos(fv.Pos()) + " (" + shortName(FuncName(f)) + ")"
+						}
+					}
+					if ci, ok := in.(ssa.CallInstruction); ok {
+						cn := CalleeName(ci.Common())
+						if NameMatch(cn, "util.FilterActiveDeployment") || strings.HasSuffix(cn, ".GetDeletionTimestamp") {
+							bad = "calls " + shortName(cn) + " at " + p.Pos(ci.Pos()) + " (" + shortName(FuncName(f)) + ")"
+						}
+					}
+				}
+			}
+		}
+		c.Ob("R18.6", shortName(FuncName(cs.Caller))+"#strip-sees-terminating", cs.Instr.Pos(), bad == "", "the objects offered to the finalizer-stripping loop are not filtered by deletion timestamp",
+			ifs(bad != "", "the function (or the listing helper it uses) "+bad+": an object that is already terminating is skipped and keeps the finalizer for good"))
+	}
+}
+
+// ---------------------------------------------------------------- C03 R3.7, R3.8
+
+func r4C03(c *Ctx) {
+	p := c.Prog
+	c.Rule("R3.7", "PatchStableService answers 'no retry' before the pin step only for configurations with nothing to pin", 1)
+	if fn := p.Func("pkg/trafficrouting.Manager.PatchStableService"); fn == nil {
+		c.Unresolved("R3.7", "trafficrouting.Manager.PatchStableService")
+	} else {
+		// the pin step: the grace-wrapped closure, or any API write
+		isWrite := apiWrites(p)
+		isPin := func(in ssa.Instruction) bool {
+			if isWrite(in) {
+				return true
+			}
+			if ci, ok := in.(ssa.CallInstruction); ok && strings.Contains(CalleeName(ci.Common()), "grace.RunWithGraceSeconds") {
+				return true
+			}
+			return false
+		}
+		nothingToPin := FOr(
+			FCmp("==", MLen(MField("ObjectRef")), MConst("0")),
+			FTrue(MField("OnlyTrafficRouting")), FTrue(MField("DisableGenerateCanaryService")),
+		)
+		n := 0
+		seen := map[*ssa.Return]bool{}
+		for _, r := range WalkCP(Entry(fn), nil, IsReturn, ReachOpts{CutInstr: isPin, CutEdge: func(b *ssa.BasicBlock, k int) bool {
+			return EdgeFactMatches(b, k, nothingToPin)
+		}}) {
+			ret := r.Instr.(*ssa.Return)
+			if ret.Block() == fn.Recover || len(ret.Results) < 2 || seen[ret] {
+				continue
+			}
+			if v, ok := ResolveConst(ret.Results[1], r.Env); !ok || v != "nil" {
+				continue // an error is returned: the caller retries
+			}
+			if v, ok := ResolveConst(ret.Results[0], r.Env); ok && v == "true" {
+				continue // retry requested
+			}
+			seen[ret] = true
+			n++
+			c.Ob("R3.7", "PatchStableService#no-retry-without-pin", ret.Pos(), false, "no-retry answered before the pin step",
+				"this return answers (no retry, no error) although the selector was neither examined nor written and the configuration does have a Service to pin: the first step starts with the stable Service selecting new pods").WithFacts(FactsAtInstr(ret))
+		}
+		if n == 0 {
+			c.Ob("R3.7", "PatchStableService#no-retry-without-pin", fn.Pos(), true, "every no-retry answer before the pin step is for a configuration with nothing to pin", "")
+		}
+	}
+
+	c.Rule("R3.8", "validator and consumers parse a step's traffic string with the same function", 3)
+	type site struct {
+		fn     *ssa.Function
+		callee string
+		pos    ssa.Instruction
+	}
+	var sites []site
+	for _, fn := range p.RepoFuncs() {
+		for _, ci := range AllCalls(fn) {
+			cn := CalleeName(ci.Common())
+			if !(strings.HasSuffix(cn, "intstr.FromString") || strings.HasSuffix(cn, "intstr.Parse")) || len(ci.Common().Args) != 1 {
+				continue
+			}
+			if t := TermOf(ci.Common().Args[0]); !(MField("Traffic")(t) || t.Any(MField("Traffic"))) {
+				continue
+			}
+			sites = append(sites, site{fn, cn, ci.(ssa.Instruction)})
+		}
+	}
+	count := map[string]int{}
+	for _, s := range sites {
+		count[s.callee]++
+	}
+	major := ""
+	for k, v := range count {
+		if v > count[major] || (v == count[major] && k < major) {
+			major = k
+		}
+	}
+	for _, s := range sites {
+		ok := s.callee == major
+		c.Ob("R3.8", shortName(FuncName(s.fn))+"#traffic-parse", s.pos.Pos(), ok, "traffic string parsed with "+shortName(major)+" like every other site",
+			ifs(!ok, "this site uses "+shortName(s.callee)+" while the other "+fmt.Sprint(count[major])+" sites use "+shortName(major)+": a value such as \"20\" is a number for one and an (invalid) percentage for the other, so the admitted value is not the routed one"))
+	}
+}
+
+// ---------------------------------------------------------------- C12 R12.8
+
+func r4C12(c *Ctx) {
+	p := c.Prog
+	c.Rule("R12.8", "the ordered pod filter sorts before it classifies", 1)
+	fn := p.Func("pkg/controller/batchrelease/labelpatch.FilterPodsForOrderedUpdate")
+	if fn == nil {
+		c.Unresolved("R12.8", "labelpatch.FilterPodsForOrderedUpdate")
+		return
+	}
+	if len(fn.Params) == 0 {
+		c.Unresolved("R12.8", "labelpatch.FilterPodsForOrderedUpdate: pods parameter")
+		return
+	}
+	pods := fn.Params[0]
+	// does the function truncate a list it built (slice with a non-constant bound)?
+	truncates := false
+	for _, b := range fn.Blocks {
+		for _, in := range b.Instrs {
+			if sl, ok := in.(*ssa.Slice); ok && sl.High != nil {
+				if _, isC := sl.High.(*ssa.Const); !isC {
+					truncates = true
+				}
+			}
+		}
+	}
+	if !truncates {
+		c.Ob("R12.8", "FilterPodsForOrderedUpdate#sort-before-classify", fn.Pos(), true, "no list is truncated: order is irrelevant", "")
+		return
+	}
+	sorts := func(in ssa.Instruction) bool {
+		ci, ok := in.(ssa.CallInstruction)
+		if !ok {
+			return false
+		}
+		usesPods := false
+		for _, a := range ci.Common().Args {
+			if Forwarded(a) == ssa.Value(pods) || a == ssa.Value(pods) {
+				usesPods = true
+			}
+		}
+		if !usesPods {
+			return false
+		}
+		cn := CalleeName(ci.Common())
+		if strings.HasPrefix(cn, "sort.") || strings.HasPrefix(cn, "slices.Sort") {
+			return true
+		}
+		for _, cal := range p.Callees(ci) {
+			for f := range p.ReachableFrom(cal) {
+				for _, x := range AllCalls(f) {
+					xn := CalleeName(x.Common())
+					if strings.HasPrefix(xn, "sort.") || strings.HasPrefix(xn, "slices.Sort") {
+						return true
+					}
+				}
+			}
+		}
+		return false
+	}
+	readsElem := func(in ssa.Instruction) bool {
+		switch x := in.(type) {
+		case *ssa.IndexAddr:
+			return x.X == ssa.Value(pods)
+		case *ssa.Index:
+			return x.X == ssa.Value(pods)
+		case *ssa.Range:
+			return x.X == ssa.Value(pods)
+		}
+		return false
+	}
+	reach, at := CanReach(Entry(fn), readsElem, ReachOpts{CutInstr: sorts})
+	detail := ""
+	if reach {
+		detail = "the pods are read at " + p.Pos(at.Pos()) + " before any sort of the list: which low-priority pods fall into the truncated prefix then depends on the order the informer returned them in, so a pod labelled on one pass can be filtered out on the next"
+	}
+	c.Ob("R12.8", "FilterPodsForOrderedUpdate#sort-before-classify", fn.Pos(), !reach, "a sort of the pods precedes the first read of an element", detail)
 }
